@@ -25,7 +25,8 @@ RULE = (
     "unit: (suite, version, key generation, header kind, CID/token lengths, pn length, pn, payload length) tuples, "
     "aioquic->reference and reference->aioquic, compared bit for bit; pn: exhaustive 8-bit windows near 0 and 2^62 plus random "
     "16/24/32-bit cases against the closest-candidate definition; wire: simulated hostile runs with the independent tap as oracle; "
-    "tamper: every packet of recorded handshake/transfer/key-update/close (and Retry) flights, isolated into its own datagram, is "
+    "tamper: every packet of recorded handshake/transfer/key-update/close flights, of Retry exchanges and of resumed connections with "
+    "0-RTT packets (including the client's first Initial delivered to a server still in FIRSTFLIGHT), isolated into its own datagram, is "
     "delivered in altered copies before the genuine one (quick: all bits of header, packet number, first 16 payload bytes and tag + "
     "every 7th other bit, byte masks 0x01/0x80/0xFF on a stride, truncations 1..17; thorough: every bit). non-trivial = a case in "
     "which a packet was actually sealed/opened or an altered copy was processed by a live receiver; distinct = hash of the "
@@ -67,6 +68,10 @@ def plan(tier, seed):
         flight = ["handshake", "retry", "transfer"][(i // 6) % 3]
         b.append({"gen": "tamper", "seed": base + i, "suite": suite, "version": version, "flight": flight,
                   "all_bits": tier == "thorough", "role": ["client", "server"][(i // 18) % 2]})
+    for i in range(6 if tier == "quick" else 12):
+        # resumed connection with 0-RTT packets, altered copies delivered to the server
+        b.append({"gen": "tamper", "seed": base + 100 + i, "suite": SUITES[i % 3], "version": ["v1", "v2"][(i // 3) % 2], "flight": "0rtt",
+                  "all_bits": tier == "thorough", "role": "server"})
     # interleave generators
     order = {"unit": 0, "pn": 0, "wire": 1, "tamper": 2}
     groups = {}
@@ -392,7 +397,7 @@ def alterations(pkt: bytes, views, all_bits: bool, rng):
 class LockStep:
     """Genuine client/server exchange, one datagram at a time, with a tamper hook before each delivery."""
 
-    def __init__(self, suite, version, seed, retry=False):
+    def __init__(self, suite, version, seed, retry=False, resume=False):
         import io
 
         from aioquic.quic.connection import QuicConnection
@@ -402,6 +407,13 @@ class LockStep:
 
         opts = {"cipher_suites_client": [suite], "versions_client": [version], "versions_server": [version, "v1" if version == "v2" else "v2"]}
         self.ccfg, self.scfg = simnet.make_configs(opts)
+        self.server_kwargs = {}
+        if resume:
+            # session resumption: the client offers a ticket from a priming connection and sends 0-RTT packets
+            ticket, store = simnet.prime_session(opts)
+            if ticket is not None:
+                self.ccfg.session_ticket = ticket
+            self.server_kwargs = {"session_ticket_fetcher": store.pop, "session_ticket_handler": store.add}
         self.keylog = io.StringIO()
         self.ccfg.secrets_log_file = self.keylog
         self.scfg.secrets_log_file = self.keylog
@@ -454,7 +466,7 @@ class LockStep:
                 self.sent_retry = True
                 return False
             odcid, rscid = self.retry.validate_token(self.simnet.CLIENT_ADDR, header.token)
-        self.server = QuicConnection(configuration=self.scfg, original_destination_connection_id=odcid, retry_source_connection_id=rscid)
+        self.server = QuicConnection(configuration=self.scfg, original_destination_connection_id=odcid, retry_source_connection_id=rscid, **self.server_kwargs)
         return True
 
     def deliver(self, sender, data):
@@ -499,9 +511,11 @@ def tamper(batch, res):
 
     suite, version, flight = batch["suite"], batch["version"], batch["flight"]
     rng = random.Random("c02tamper/%s" % batch["seed"])
-    ls = LockStep(suite, version, batch["seed"], retry=(flight == "retry"))
+    ls = LockStep(suite, version, batch["seed"], retry=(flight == "retry"), resume=(flight == "0rtt"))
     case = dict(batch)
     ls.client.connect(ls.simnet.SERVER_ADDR, now=ls.now)
+    if flight == "0rtt":
+        ls.client.send_stream_data(0, bytes(2500), end_stream=False)  # early data: 0-RTT packets follow the Initial
     ls.pump("client")
     script = []
     if flight == "transfer":
@@ -584,6 +598,7 @@ def tamper(batch, res):
                     after = digest(R)
                     altered += 1
                     classes[cls] = classes.get(cls, 0) + 1
+                    res.count("altered_ptype_" + view.ptype)
                     if after != before:
                         changed = [DIGEST_FIELDS[i] for i in range(len(before)) if before[i] != after[i]]
                         res.violation(
